@@ -92,6 +92,7 @@ int snoopy_filter_exclude_spawns_of (char const * const arg)
     losp = string_to_token_array(argDup);
     if (losp == NULL) {
         // If failure, we cannot filter anything, just pass the message
+        free(argDup);
         return SNOOPY_FILTER_PASS;
     }
 
